@@ -588,9 +588,43 @@ class Evaluator:
     # -------------------------------------------------------------- for loops
     def exec_for(self, st: ast.For, state: State, func: Func):
         outs = []
+        roots = self._alias_mutated_roots(st)
+        if roots:
+            st2 = _loop_over_keys(st)
+            if st2 is not None:
+                # `for v in d.values(): v.discard(x)`  is  `for k in d: d[k].discard(x)`: the modification is then an effect on d itself
+                return self.exec_for(st2, state, func)
         for s0, it in self.eval(st.iter, state, func):
             outs.extend(self._exec_for_over(st, s0, it, func))
+        if roots:
+            # the body modifies the loop variable's OBJECT, which lives inside the collection being iterated: the evaluator has no heap to
+            # follow that through, so the collection's owner is no longer known
+            for o in outs:
+                for r in roots:
+                    if r in o[0].env:
+                        o[0].env[r] = unknown(f"modified-through-loop-variable:{r}", st.lineno)
+                        self.unknowns.append((func.qname, st.lineno, f"alias-mutation:{r}"))
         return outs
+
+    def _alias_mutated_roots(self, st: ast.For) -> set:
+        targets = _target_names(st.target)
+        hit = False
+        for n in ast.walk(ast.Module(body=st.body, type_ignores=[])):
+            if isinstance(n, ast.Call) and isinstance(n.func, ast.Attribute) and n.func.attr in MUTATORS and isinstance(n.func.value, ast.Name) \
+                    and n.func.value.id in targets:
+                hit = True
+            elif isinstance(n, ast.Subscript) and isinstance(n.ctx, (ast.Store, ast.Del)) and isinstance(n.value, ast.Name) and n.value.id in targets:
+                hit = True
+            elif isinstance(n, ast.AugAssign) and isinstance(n.target, ast.Name) and n.target.id in targets and isinstance(n.op, (ast.BitOr, ast.BitAnd, ast.Sub, ast.Add)):
+                hit = True
+        if not hit:
+            return set()
+        roots = set()
+        cur = st.iter
+        for n in ast.walk(cur):
+            if isinstance(n, ast.Name):
+                roots.add(n.id)
+        return roots
 
     def _exec_for_over(self, st: ast.For, s0: State, it: Term, func: Func):
         line = st.lineno
@@ -1637,6 +1671,16 @@ class Evaluator:
                         out.append(self.eval1(e.elt, s2, func))
                 if ok:
                     return ("listlit", tuple(out))
+        if kind in ("list", "gen") and len(gens) >= 2 and gens[0][0][0] == "var" and not gens[0][2]:
+            items = self._literal_items(gens[0][1])
+            if items is not None and 1 <= len(items) <= 4:
+                # [f(a, x) for a in (A, B) for x in g(a)] = [f(A, x) for x in g(A)] + [f(B, x) for x in g(B)]
+                out = None
+                for x in items:
+                    m = {gens[0][0]: x}
+                    part = ("comp", "list", subst(elt, m), tuple(subst(g, m) for g in gens[1:]))
+                    out = part if out is None else self._concat(out, part)
+                return out
         if kind != "dict" and len(gens) == 1 and gens[0][0][0] == "var":
             pat, it, conds = gens[0]
             src = it
@@ -2399,6 +2443,8 @@ class Evaluator:
         if name == "update" and len(args) >= 1 and not kwargs and (self.is_setlike(cur) or cur[0] in ("empty", "union", "setof", "setlit", "diff", "inter")):
             out = cur
             for a in args:  # s.update(a, b) = s |= a | b
+                if a[0] == "comp" and a[1] in ("list", "gen"):
+                    a = ("comp", "set", a[2], a[3])  # the elements, as a set
                 out = self.mk_set("union", out, a if a[0] in ("union", "inter", "diff", "setof", "setlit", "comp") else ("setof", a))
             return out
         if name == "append" and len(args) == 1:
@@ -2536,6 +2582,43 @@ def _neg_alts(c: Term, limit: int) -> list[list[Term]]:
     return [[_neg(c)]]
 
 
+def _loop_over_keys(st: ast.For) -> ast.For | None:
+    """`for v in d.values(): BODY` / `for k, v in d.items(): BODY`  ->  `for k in d: BODY[v := d[k]]`  (d a plain name, v never re-bound)."""
+    import copy
+
+    it = st.iter
+    if not (isinstance(it, ast.Call) and not it.args and not it.keywords and isinstance(it.func, ast.Attribute) and isinstance(it.func.value, ast.Name)
+            and it.func.attr in ("values", "items")):
+        return None
+    d = it.func.value.id
+    if it.func.attr == "values" and isinstance(st.target, ast.Name):
+        k, v = "__key_of_" + st.target.id, st.target.id
+    elif it.func.attr == "items" and isinstance(st.target, ast.Tuple) and len(st.target.elts) == 2 and all(isinstance(x, ast.Name) for x in st.target.elts):
+        k, v = st.target.elts[0].id, st.target.elts[1].id
+    else:
+        return None
+    body = ast.Module(body=copy.deepcopy(st.body), type_ignores=[])
+    for n in ast.walk(body):
+        if isinstance(n, ast.Name) and n.id in (v, d) and isinstance(n.ctx, (ast.Store, ast.Del)):
+            return None
+        if isinstance(n, (ast.FunctionDef, ast.Lambda)):
+            return None
+
+    class R(ast.NodeTransformer):
+        def visit_Name(self, n):
+            if n.id == v and isinstance(n.ctx, ast.Load):
+                return ast.copy_location(ast.Subscript(value=ast.Name(id=d, ctx=ast.Load()), slice=ast.Name(id=k, ctx=ast.Load()), ctx=ast.Load()), n)
+            return n
+
+    body = R().visit(body)
+    new = ast.For(target=ast.Name(id=k, ctx=ast.Store()), iter=ast.Name(id=d, ctx=ast.Load()), body=body.body, orelse=[], type_comment=None)
+    ast.copy_location(new, st)
+    ast.fix_missing_locations(new)
+    if st.orelse:
+        return None
+    return new
+
+
 def _guard_is_vacuous(test: ast.expr, it: ast.expr) -> bool:
     """Is `test` false only when iterating `it` visits nothing?  (purely syntactic; the collection must be a plain name)"""
     def len_of(e):
@@ -2589,8 +2672,10 @@ def _first_ite(t):
         if s_[0] == "ite" or (s_[0] == "orelse" and len(s_) == 3):
             if bv is None:
                 bv = bound_vars(t)
-            if bv and any(x in bv for x in _subterms(s_[1]) if x[0] == "var"):
-                continue  # the test depends on a variable bound inside t: not a case distinction of the whole path
+            if bv:
+                own = bound_vars(s_[1])
+                if any(x in bv and x not in own for x in _subterms(s_[1]) if x[0] == "var"):
+                    continue  # the test depends on a variable bound inside t (around the test): not a case distinction of the whole path
             return s_
     return None
 
